@@ -775,7 +775,7 @@ func init() {
 						jobs = append(jobs, J(sessPkg, "H_C08_refresh", role, 0, kind, 1)) // after a second logon
 					}
 					for st := 0; st <= 1; st++ {
-						for canc := 0; canc <= 1; canc++ {
+						for canc := 0; canc <= 2; canc++ {
 							jobs = append(jobs, J(sessPkg, "H_C08_heartbeat", role, st, canc))
 							jobs = append(jobs, J(sessPkg, "H_C08_heartbeat", role, st, canc, 1))
 						}
@@ -809,7 +809,7 @@ func init() {
 						}
 						jobs = append(jobs, J(sessPkg, "H_C08_refresh", role, 1, k))
 					}
-					jobs = append(jobs, J(sessPkg, "H_C09_probe", role, 0, 0), J(sessPkg, "H_C09_probe", role, 2, 0))
+					jobs = append(jobs, J(sessPkg, "H_C09_probe", role, 0, 0), J(sessPkg, "H_C09_probe", role, 2, 0), J(sessPkg, "H_C09_probe", role, 3, 0))
 					// silence that begins while a local Logout is unanswered
 					jobs = append(jobs, J(sessPkg, "H_C09_probe", role, 0, 0, 0, 1))
 					// the same from the pre-state "second logon on the same session"
@@ -937,7 +937,7 @@ func init() {
 			Assumptions: append(append([]string{}, commonAssumptions...),
 				"goroutines are interpreted with sequentially consistent interleaving; unbuffered channels have exact rendezvous semantics; a goroutine that spins on an always-ready select is descheduled periodically (fairness); in a polling loop only the first two visits of a program point are switch points",
 				"the scripted net.Conn stands for a socket: Read blocks until data/EOF/error/Close, Write never blocks (a peer that stops reading is outside the bound)"),
-			Outside:      "a session with running timers attached to the handler; the peer that stops reading (blocking Write until the deadline); more than one preemption (quick); preemption at mutex/atomic operations; several simultaneous connections being torn down together",
+			Outside:      "a session attached to the handler is covered only compositionally: its two timer goroutines leave at their next expiry once the handler context is cancelled (lemma H_C08_heartbeat / H_C09_probe with a stopped handler, under C08/C09), so the settling time includes up to N+max(1,N/20) seconds; the peer that stops reading (blocking Write until the deadline); more than one preemption (quick); preemption at mutex/atomic operations; several simultaneous connections being torn down together",
 			Differential: 0,
 		}
 	})
